@@ -50,6 +50,15 @@ def transfer(opA, xA, opB, rename=None, default=0.0):
     for k, j in kb.items():
         if k in ka:
             xB[j] = xA[ka[k]]
+            continue
+        # contracts / storages use one variable 'disp' or a pair 'disp_in' (<= 0) / 'disp_out' (>= 0)
+        # per step depending on conditions over the whole grid - same dispatch, other variables
+        a, v, n, t = k
+        if v in ("disp_in", "disp_out") and (a, "disp", n, t) in ka:
+            xa = xA[ka[(a, "disp", n, t)]]
+            xB[j] = min(xa, 0.0) if v == "disp_in" else max(xa, 0.0)
+        elif v == "disp" and ((a, "disp_in", n, t) in ka or (a, "disp_out", n, t) in ka):
+            xB[j] = sum(xA[ka[kk]] for kk in ((a, "disp_in", n, t), (a, "disp_out", n, t)) if kk in ka)
         else:
             missing.append(k)
     for j in unmapped_b:
